@@ -19,7 +19,7 @@ func TestReplay(t *testing.T) {
 	t.Cleanup(c.Flush)
 	c.Case()
 	switch doc.Check {
-	case "seg-2way", "seg-random":
+	case "seg-2way", "seg-random", "seg-errtail":
 		var r segReplay
 		if err := json.Unmarshal(doc.Data, &r); err != nil || r.Stream == nil {
 			t.Fatalf("bad replay data: %v", err)
@@ -54,7 +54,7 @@ func TestReplay(t *testing.T) {
 		if diff != "" {
 			c.Fail(t, "cut-changes-parse:arbitrary", fmt.Sprintf("cuts %v: %s", clipInts(cuts), diff), in)
 		}
-	case "live", "live-pipeline":
+	case "live", "live-pipeline", "live-errtail":
 		var lc liveCase
 		if err := json.Unmarshal(doc.Data, &lc); err != nil {
 			t.Fatalf("bad replay data: %v", err)
